@@ -364,6 +364,11 @@ func (ms *MessageStreamer) Go(ctx context.Context, conn StreamConnection) error 
 				delayAmount = defaultMinDelay / 2
 			}
 			checkInterval := delayAmount * 9 / 10
+			if checkInterval < time.Millisecond {
+				// a (legal) minimum backoff of a few nanoseconds would give a zero
+				// interval, and time.NewTicker panics on that
+				checkInterval = time.Millisecond
+			}
 			if delayAmount < time.Second {
 				// set a min for this, but _after_ we compute checkInterval
 				delayAmount = time.Second
